@@ -670,3 +670,220 @@ Proof.
   split; [reflexivity|]. split; [reflexivity|]. split; [exact O1|reflexivity].
 Qed.
 Print Assumptions ex_rbtree_alloc_failstop_hyps.
+
+(* ==== Extension (session 3, audit 4 item 11): sqfs_xattr_writer_end, the whole recording API as a run, and the
+   allocation sites of sqfs_xattr_writer_flush ====
+   Models: UtilAlloc/XattrEndAlloc.v (create with the block tree, begin, add_kv with the prefix / key length checks it
+   makes before it allocates, end, destroy with rbtree_cleanup, sessions), UtilAlloc/XattrFlushAlloc.v.
+   sqfs_xattr_writer_end has NO SQFS_ERROR_OVERFLOW return; of the two in the recording path the key length one is in
+   xw_add_kv_chk_a, "key_index / value_index > 0xFFFFFFFF" (unreachable below 2^32 strings) stays unmodelled. *)
+From SqfsV Require Import Base.Bytes UtilAlloc.XattrAddExt UtilAlloc.XattrEndAlloc UtilAlloc.XattrEndBase UtilAlloc.XattrEndProofs
+     UtilAlloc.XattrSession UtilAlloc.XattrFlushAlloc UtilAlloc.XattrFlushProofs UtilAlloc.XattrEndRefine UtilAlloc.XattrEndTop.
+From SqfsV Require C01.XattrModel.
+
+(* sqfs_xattr_writer_end under ANY oracle, from any state with a set under construction ([x2_inv] with the fence at
+   kv_start: the recording invariant of add_kv plus: the block tree is a red-black search tree under block_compare of the
+   pair array AS IT IS, every block lies in front of kv_start, the stored indices are pairwise different and below
+   num_blocks).  No crash (the second lookup finds the node just inserted).
+   A FAILING end returns SQFS_ERROR_ALLOC - the oracle said NULL to rbtree_insert's node -, assigns no index
+   (out = None), leaves the tree, the list through the descriptors, num_blocks, both string tables and kv_start as
+   they were ([end_failed], [end_same_rest]) and the abstract table index -> block unchanged; the pairs since begin
+   are the same multiset, sorted in place; the invariant holds again with the same fence: end can be repeated, add_kv
+   or begin called, or the writer destroyed (xattr_writer_destroy2_frees_all).
+   A SUCCESSFUL end of a non-empty set hands out an index that is in the table with a block holding byte for byte
+   the sorted pairs; every entry the table had is still there; an empty set answers 0xFFFFFFFF and changes nothing. *)
+Theorem xattr_writer_end_alloc_failstop : forall b w h F,
+  x2_inv b w (x2_start w) -> x2_used w < 2 ^ 64 -> x2_num w < 4294967295 ->
+  owned_by h (x2_owns w) F ->
+  exists w' z out h',
+    xw_end_a w h = EOk w' z out h' /\
+    owned_by h' (x2_owns w') F /\ h_bad h' = h_bad h /\ end_same_rest w w' /\
+    ((z = 0%Z /\ x2_inv b w' (x2_used w') /\ incl (set_table w) (set_table w') /\
+      exists idx, out = Some idx /\
+        (x2_used w = x2_start w -> idx = NO_INDEX /\ w' = w /\ h' = h) /\
+        (x2_start w < x2_used w -> exists S, In (idx, S) (set_table w') /\
+             flat_map le64 S = flat_map le64 (sort_u64 (skipnN (x2_start w) (x2_data w)))) /\
+        (x2_start w < x2_used w -> end_found w w' idx \/ end_new w w' h idx))
+     \/
+     (z = c_SQFS_ERROR_ALLOC /\ out = None /\ (exists o, h_orc h = false :: o) /\ end_failed w w' /\
+      x2_inv b w' (x2_start w') /\ set_table w' = set_table w)).
+Proof. exact xw_end_a_spec. Qed.
+Print Assumptions xattr_writer_end_alloc_failstop.
+
+(* the run level: ANY sequence of begin / add_kv / end calls over ANY oracle, from any state satisfying the invariant
+   (for instance the one create returns: xattr_writer_create2_alloc_failstop) with room for the calls (hash table
+   counters below the bound of the hash table theorems, used below 2^64, fewer than 2^32 - 1 blocks).
+   xw_run_a answers SessMisuse when add_kv / end is called without a begin since the last successful end (a use the API
+   does not define: the pairs of a finished block would be edited); otherwise it never crashes, keeps the invariant
+   and the ownership (so destroy frees everything exactly once), frees nothing twice, only ADDS to the table
+   index -> block, both string tables only grow at their ends (an index into them keeps its string), and every
+   index a successful end handed out ([xw_handed]: the index with the bytes of the sorted pairs of its set AT THAT
+   MOMENT) denotes, in the final state and whatever failed in between, a block holding exactly those bytes. *)
+Theorem xattr_writer_session_alloc_failstop : forall fx ops s F,
+  sess_inv s F -> sess_room s (N.of_nat (length ops)) ->
+  match xw_run_a fx s ops with
+  | SessOk s' log =>
+    sess_inv s' F /\ h_bad (xs_h s') = h_bad (xs_h s) /\
+    incl (set_table (xs_w s)) (set_table (xs_w s')) /\
+    prefix (keys_of s) (keys_of s') /\ prefix (values_of s) (values_of s') /\
+    length log = length ops /\
+    Forall (fun x => denotes (xs_w s') (fst x) (snd x)) (xw_handed fx s ops)
+  | SessMisuse => True
+  | SessCrash | SessFuel => False
+  end.
+Proof. exact xw_session_failstop. Qed.
+Print Assumptions xattr_writer_session_alloc_failstop.
+
+(* one call: what each answer promises (a failing add_kv: the pairs are what they were; a failing end: see above;
+   SessMisuse only for add_kv / end on a closed writer) *)
+Theorem xattr_writer_step_alloc_failstop : forall fx s op F n,
+  sess_inv s F -> sess_room s (n + 1) ->
+  match xw_step_a fx s op with
+  | SessOk s' log => step_ok s s' F n /\ exists a, log = [a] /\ ans_ok s s' a
+  | SessMisuse => xs_open s = false /\ op <> OBegin
+  | SessCrash | SessFuel => False
+  end.
+Proof. exact xw_step_spec. Qed.
+Print Assumptions xattr_writer_step_alloc_failstop.
+
+(* "denotes" is functional: the table holds at most one block per index *)
+Theorem xattr_table_index_functional : forall b w f idx S1 S2,
+  x2_inv b w f -> In (idx, S1) (set_table w) -> In (idx, S2) (set_table w) -> S1 = S2.
+Proof. exact denotes_functional. Qed.
+
+(* create (with rbtree_init and the fail_tree path) is all or nothing and establishes the invariant; begin keeps it
+   (audit 4: no statement said so) and moves the fence to used; destroy (rbtree_cleanup first) frees every block of
+   every state the invariant describes exactly once *)
+Theorem xattr_writer_create2_alloc_failstop : forall h F,
+  owned_by h [] F ->
+  let '(r, h') := xw_create2_a h in
+  h_bad h' = h_bad h /\
+  match r with
+  | Some w => owned_by h' (x2_owns w) F /\ (forall b, x2_inv b w (x2_start w)) /\ set_table w = [] /\ x2_num w = 0
+  | None => owned_by h' [] F
+  end.
+Proof. exact xw_create2_alloc_failstop. Qed.
+Print Assumptions xattr_writer_create2_alloc_failstop.
+
+Theorem xattr_writer_begin_keeps_inv : forall b w f,
+  x2_inv b w f ->
+  x2_inv b (xw_begin2_a w) (x2_used w) /\ x2_start (xw_begin2_a w) = x2_used w /\
+  x2_used (xw_begin2_a w) = x2_used w /\ x2_data (xw_begin2_a w) = x2_data w /\
+  x2_owns (xw_begin2_a w) = x2_owns w /\ set_table (xw_begin2_a w) = set_table w.
+Proof. exact xw_begin2_spec. Qed.
+
+Theorem xattr_writer_destroy2_frees_all : forall b w f h F,
+  x2_inv b w f -> owned_by h (x2_owns w) F ->
+  owned_by (snd (xw_destroy2_a b w h)) [] F /\ h_bad (snd (xw_destroy2_a b w h)) = h_bad h.
+Proof. exact xw_destroy2_frees_all. Qed.
+Print Assumptions xattr_writer_destroy2_frees_all.
+
+(* add_kv once more, with what a run needs: the entry counters of both tables grow by at most one per call, the pairs
+   in front of kv_start are untouched, used grows by at most one ([xw_more]) *)
+Theorem xattr_writer_add_kv_alloc_failstop_ext : forall fx b w key value h F,
+  axw_inv b w -> owned_by h (xw_owns w) F ->
+  ht_entries skey N (st_ht (as_core (xw_keys w))) < ht_safe_limit ->
+  ht_entries skey N (st_ht (as_core (xw_values w))) < ht_safe_limit ->
+  exists b' w' z h',
+    xw_add_kv_a fx b w key value h = SOk (b', w', z, h') /\
+    axw_inv b' w' /\ owned_by h' (xw_owns w') F /\ h_bad h' = h_bad h /\
+    xw_residue b w b' w' /\ xw_more w w' /\
+    (z <> 0%Z -> z = c_SQFS_ERROR_ALLOC /\ xw_pairs w' = xw_pairs w) /\
+    (z = 0%Z -> exists ki vi,
+        nth_error (strings b' (as_core (xw_keys w'))) (N.to_nat ki) = Some key /\
+        nth_error (strings b' (as_core (xw_values w'))) (N.to_nat vi) = Some (to_base32 value) /\
+        In (mk_pair ki vi) (aa_abs N (xw_pairs w'))).
+Proof. exact xattr_add_kv_alloc_failstop_ext. Qed.
+Print Assumptions xattr_writer_add_kv_alloc_failstop_ext.
+
+(* the success path IS C01's functional model of end: from a state whose blocks are pairwise different, whose
+   descriptor list enumerates the nodes in index order and whose array holds sqfs_u64 values ([x2_rinv]), with an
+   oracle that never says NULL, xw_end_a succeeds with the index and the block list C01.XattrModel.xw_end computes on
+   the abstraction (pairs behind kv_start as (key index, value index); block k = the pairs of the node storing k),
+   and both invariants hold again.  (x2_rinv is kept by end - proved here - and trivially by begin; that add_kv keeps
+   "the array holds values < 2^64" needs key / value indices < 2^32, which the C code checks and the allocation-aware
+   add_kv model does not: hypothesis per call, not a run-level refinement.) *)
+Theorem xattr_writer_end_refines_c01 : forall kk vv rr b w h F,
+  x2_inv b w (x2_start w) -> x2_rinv w -> x2_used w < 2 ^ 64 -> x2_num w < 4294967295 ->
+  owned_by h (x2_owns w) F -> all_ok h ->
+  exists w' idx h',
+    xw_end_a w h = EOk w' 0%Z (Some idx) h' /\
+    x2_inv b w' (x2_used w') /\ x2_rinv w' /\
+    C01.XattrModel.xw_end (C01.XattrModel.mkX kk vv rr (cur_of w) (blocks_of w))
+    = (C01.XattrModel.mkX kk vv rr [] (blocks_of w'), idx).
+Proof. exact xw_end_a_refines_xw_end. Qed.
+Print Assumptions xattr_writer_end_refines_c01.
+
+(* the allocation sites of sqfs_xattr_writer_flush and of the meta writer it drives (the meta writer, the
+   out-of-line table, one buffer per in-line value, one block per metadata block flushed - also in the middle of an
+   append -, the location table): for EVERY oracle and every writer state whatever the flush allocated is freed again
+   when it returns, nothing else is freed, nothing twice, and the only error codes are SQFS_ERROR_ALLOC /
+   SQFS_ERROR_OVERFLOW.  (The writer is a const argument: unchanged by construction.  Bytes written: C01 / C03.
+   NOT modelled: I/O errors of write_at, the compressor's own allocations.) *)
+Theorem xattr_writer_flush_allocs_failstop : forall b w h own F,
+  owned_by h own F ->
+  owned_by (snd (xw_flush_a b w h)) own F /\ h_bad (snd (xw_flush_a b w h)) = h_bad h /\
+  (forall z, fst (xw_flush_a b w h) = Some z -> z = 0%Z \/ z = c_SQFS_ERROR_ALLOC \/ z = c_SQFS_ERROR_OVERFLOW).
+Proof. exact xw_flush_a_spec. Qed.
+Print Assumptions xattr_writer_flush_allocs_failstop.
+
+(* ---- non-vacuity ---- *)
+(* every state create returns meets the hypotheses of the session theorem *)
+Example ex_xattr_session_start : forall o s, xs_start o = Some s ->
+  sess_inv s (fun _ => False) /\ xs_open s = false /\ set_table (xs_w s) = [] /\ x2_num (xs_w s) = 0.
+Proof. exact xs_start_inv. Qed.
+
+(* a writer created over an oracle whose 15th allocation call - the tree node of the first end - fails:
+   begin, two adds, end (fails: SQFS_ERROR_ALLOC, no index), end again (index 0); the same set added in the other
+   order (index 0 again: the tree lookup finds the block); a third set (index 1); destroy frees everything *)
+Example ex_xattr_session_run :
+  match xs_start (fail_at 14) with
+  | Some s =>
+    sess_room s (N.of_nat (length ex_ops)) /\
+    match xw_run_a true s ex_ops with
+    | SessOk s' log =>
+      log = [ABegin; AAdd 0; AAdd 0; AEnd c_SQFS_ERROR_ALLOC None; AEnd 0 (Some 0%N);
+             ABegin; AAdd 0; AAdd 0; AEnd 0 (Some 0%N); ABegin; AAdd 0; AEnd 0 (Some 1%N)] /\
+      xw_handed true s ex_ops = [(0%N, ex_bytes1); (0%N, ex_bytes1); (1%N, ex_bytes2)] /\
+      set_table (xs_w s') = [(1%N, [2%N]); (0%N, [0%N; 4294967297%N])] /\
+      x2_chain (xs_w s') = [14%N; 20%N] /\
+      h_live (snd (xw_destroy2_a (xs_b s') (xs_w s') (xs_h s'))) = [] /\
+      h_bad (snd (xw_destroy2_a (xs_b s') (xs_w s') (xs_h s'))) = false
+    | _ => False
+    end
+  | None => False
+  end.
+Proof. exact ex_session_run. Qed.
+
+(* the session theorem applied to that run *)
+Example ex_xattr_session_theorem :
+  exists s s' log,
+    xs_start (fail_at 14) = Some s /\ xw_run_a true s ex_ops = SessOk s' log /\
+    sess_inv s' (fun _ => False) /\
+    Forall (fun x => denotes (xs_w s') (fst x) (snd x)) [(0%N, ex_bytes1); (0%N, ex_bytes1); (1%N, ex_bytes2)].
+Proof. exact ex_session_theorem. Qed.
+Print Assumptions ex_xattr_session_theorem.
+
+(* the flush of the final writer of that run, with one more failing call at each of its allocation sites in turn:
+   eight give SQFS_ERROR_ALLOC, behind the last one the flush succeeds; the live set is the writer's every time *)
+Example ex_xattr_flush_faults :
+  map (fun k =>
+         match ex_final (repeat true 14 ++ [false] ++ repeat true (7 + k) ++ [false]) with
+         | Some s' =>
+           let r := xw_flush_a (xs_b s') (xs_w s') (xs_h s') in
+           (fst r, (N.of_nat (length (h_live (snd r))) =? N.of_nat (length (h_live (xs_h s'))))%N, h_bad (snd r))
+         | None => (None, false, true)
+         end) (seq 0 9)
+  = repeat (Some c_SQFS_ERROR_ALLOC, true, false) 8 ++ [(Some 0%Z, true, false)].
+Proof. exact ex_flush_faults. Qed.
+
+(* the refinement theorem's hypotheses hold before the successful end of the first set, and its conclusion computed *)
+Example ex_xattr_end_refines :
+  exists s0 s l w' idx h',
+    xs_start (fail_at 14) = Some s0 /\ xw_run_a true s0 ex_ops4 = SessOk s l /\
+    xw_end_a (xs_w s) (xs_h s) = EOk w' 0%Z (Some idx) h' /\
+    C01.XattrModel.xw_end (C01.XattrModel.mkX [] [] [] (cur_of (xs_w s)) (blocks_of (xs_w s)))
+    = (C01.XattrModel.mkX [] [] [] [] (blocks_of w'), idx) /\
+    idx = 0%N /\ blocks_of w' = [[(0%nat, 0%nat); (1%nat, 1%nat)]].
+Proof. exact ex_refine_theorem. Qed.
+Print Assumptions ex_xattr_end_refines.
